@@ -1,7 +1,7 @@
 """C09 — DeepONet output = branch-trunk inner product; fast trunk path == plain network.
 
 Correspondence (model = lean/TPV/Model/DeepONet.lean through lean/drivers/C09.lean):
-  net   : whole DeepONet forward in Float (tanh), fast and plain trunk, rank-2 / rank-3 trunk input,
+  net   : whole DeepONet forward in Float (per-layer activations), fast and plain trunk, rank-2 / rank-3 trunk input,
           every way of supplying the branch input; exact rational contraction of the features the
           implementation exposes; reverse sweep with the coded backward formulas (trunk.vjp)
   lin   : ONE TrunkLinear layer in exact rational arithmetic (small dyadic data: torch is exact too):
@@ -114,14 +114,38 @@ def gen_layers(rng, sizes, bias=True):
     return out
 
 
+ACT_NAMES = ["tanh", "sigmoid", "softplus", "sin", "relu", "identity"]
+
+
+def gen_acts(rng, n):
+    """per-layer activation codes (see drivers/C09.lean actOf) and the form in which they are handed to the
+    constructor: one activation object for all layers, or a list / tuple with one entry per hidden layer"""
+    form = rng.choice(["single", "list", "list", "list", "tuple"])
+    if form == "single":
+        return [rng.choice([0, 0, 1, 2, 3])] * n, form
+    codes = [rng.choice([0, 0, 1, 2, 3, 4, 5]) for _ in range(n)]
+    if n >= 2 and len(set(codes)) == 1:            # per-layer lists are there to be different
+        codes[rng.randrange(n)] = (codes[0] + rng.randint(1, 4)) % 5
+    return codes, form
+
+
+def gen_gains(rng, n):
+    """xavier gains only influence the initial weights (which the harness overwrites) but select code paths"""
+    if rng.random() < 0.5:
+        return rng.choice([1.0, 5 / 3])
+    return [rng.choice([0.5, 1.0, 5 / 3]) for _ in range(n)]
+
+
 def gen_net(ctx, idx):
     rng = ctx.rng
     din = rng.choice([1, 2, 2, 3])
     d = rng.choice([1, 1, 2, 2, 3])
     k = rng.randint(1, 4)
     neurons = d * k
-    th = [rng.randint(1, 5) for _ in range(rng.randint(1, 3))]
-    bh = [rng.randint(1, 5) for _ in range(rng.randint(1, 2))]
+    th = [rng.randint(1, 5) for _ in range(rng.choice([1, 2, 2, 3, 3, 4]))]
+    bh = [rng.randint(1, 5) for _ in range(rng.choice([1, 2, 2, 3]))]
+    tacts, tform = gen_acts(rng, len(th))
+    bacts, bform = gen_acts(rng, len(bh))
     fdim = rng.choice([1, 1, 2])
     npts = rng.randint(1, 5)
     B = rng.choice([1, 1, 2, 3, 4])
@@ -138,6 +162,8 @@ def gen_net(ctx, idx):
         variants += ["collection"]
     case = dict(kind="net", din=din, d=d, neurons=neurons, trunk_hidden=th, branch_hidden=bh, fdim=fdim,
                 B=B, N=N, rank=rank, params=params, pts=[[p] for p in pts],
+                tacts=tacts, tform=tform, bacts=bacts, bform=bform,
+                tgains=gen_gains(rng, len(th)), bgains=gen_gains(rng, len(bh)),
                 trunk=gen_layers(rng, [din] + th + [neurons]),
                 branch=gen_layers(rng, [npts * fdim] + bh + [neurons]),
                 x=[[dy(rng, -32, 32) for _ in range(din)] for _ in range(N)],
@@ -175,6 +201,8 @@ def gen_conv(ctx, idx):
     if case["primary"] == "tensor3bad":
         case["primary"] = "tensor3"
     case["torch_seed"] = ctx.rng.randrange(10 ** 6)
+    case["conv_kernel"] = ctx.rng.choice([1, 3])
+    case["conv_deep"] = ctx.rng.random() < 0.3
     return case
 
 
@@ -297,6 +325,26 @@ def fn_torch(fdim):
     return f
 
 
+def act_modules(codes, form):
+    torch = env()["torch"]
+    nn = torch.nn
+
+    class Sin(nn.Module):
+        def forward(self, x):
+            return torch.sin(x)
+
+    mk = [nn.Tanh, nn.Sigmoid, nn.Softplus, Sin, nn.ReLU, nn.Identity]
+    if form == "single":
+        return mk[codes[0]]()
+    mods = [mk[c]() for c in codes]
+    return tuple(mods) if form == "tuple" else mods
+
+
+def np_act(np, code):
+    return [np.tanh, lambda z: 1 / (1 + np.exp(-z)), lambda z: np.where(z > 20, z, np.log1p(np.exp(np.minimum(z, 20)))),
+            np.sin, lambda z: np.maximum(z, 0), lambda z: z][code]
+
+
 def load_weights(module, layers):
     torch = env()["torch"]
     ps = list(module.parameters())
@@ -331,8 +379,10 @@ def build_net(case, copied):
     T, U, Fo, Ti, Kp = spaces_of(case)
     fs = tp.spaces.FunctionSpace(tp.domains.Interval(Ti, 0, 1), Fo)
     disc = e["Fixed"](tp.spaces.Points(t64(case["pts"]), Ti))
-    trunk = tp.models.FCTrunkNet(T, hidden=tuple(case["trunk_hidden"]), trunk_input_copied=copied)
-    branch = tp.models.FCBranchNet(fs, disc, hidden=tuple(case["branch_hidden"]))
+    trunk = tp.models.FCTrunkNet(T, hidden=tuple(case["trunk_hidden"]), trunk_input_copied=copied,
+                                 activations=act_modules(case["tacts"], case["tform"]), xavier_gains=case["tgains"])
+    branch = tp.models.FCBranchNet(fs, disc, hidden=tuple(case["branch_hidden"]),
+                                   activations=act_modules(case["bacts"], case["bform"]), xavier_gains=case["bgains"])
     if case.get("seq"):
         box = tp.domains.Interval(T, -2, 2) if case["din"] == 1 else tp.domains.Parallelogram(T, [-2, -2], [2, -2], [-2, 2])
         net = tp.models.DeepONet(tp.models.Sequential(tp.models.NormalizationLayer(box), trunk), branch, U, case["neurons"]).double()
@@ -406,14 +456,15 @@ def model_x(case, xs):
     return xs
 
 
-def ref_mlp(np, layers, x):
+def ref_mlp(np, layers, x, acts):
+    """the network the user specified: hidden layer i is followed by ITS activation acts[i]"""
     h = np.array(x, dtype=np.float64)
     for i, (W, b) in enumerate(layers):
         h = h @ np.array(W, dtype=np.float64).T
         if b is not None:
             h = h + np.array(b, dtype=np.float64)
         if i < len(layers) - 1:
-            h = np.tanh(h)
+            h = np_act(np, acts[i])(h)
     return h
 
 
@@ -480,8 +531,8 @@ def run_net(case):
         res["problems"].append(f"feature shapes: branch {list(bfeat.shape)}, trunk {list(tfeat.shape)}; expected (B,d,K)=({B},{d},{K}) and (.,N,d,K)")
 
     # ---- O1: reference network from the parameters, features split row-major into (output_dim, neurons)
-    tref = ref_mlp(np, case["trunk"], model_x(case, case["x"]))           # (N, d*K)
-    bref = ref_mlp(np, case["branch"], [sum(r, []) for r in fn_values(case)])   # (B, d*K)
+    tref = ref_mlp(np, case["trunk"], model_x(case, case["x"]), case["tacts"])           # (N, d*K)
+    bref = ref_mlp(np, case["branch"], [sum(r, []) for r in fn_values(case)], case["bacts"])   # (B, d*K)
     want = np.einsum("ick,jck->ijc", bref.reshape(B, d, K), tref.reshape(N, d, K))
     res["ref"] = want.tolist()
     for name in ("fast", "plain"):
@@ -538,10 +589,17 @@ def run_net(case):
         x = trunk_tensor(case).clone().requires_grad_(True)
         u = net(tp.spaces.Points(x, T), supply(case, "tensor3", fs)).as_tensor
         g = torch.autograd.grad((A * u).sum(), x, create_graph=True)[0]
-        h = torch.autograd.grad((Bm * g).sum(), x, create_graph=True)[0]
+        # with piecewise linear activations (ReLU, identity) only the first derivative may not depend on x at all
+        if g.requires_grad:
+            h = torch.autograd.grad((Bm * g).sum(), x, create_graph=True, allow_unused=True)[0]
+        else:
+            h = None
+        if h is None:
+            h = torch.zeros_like(x)
         L = (u ** 2).mean() + (g ** 2).mean() + (h ** 2).mean()
-        pg = torch.autograd.grad(L, list(net.parameters()))
-        return u.tolist(), g.tolist(), h.tolist(), [p.tolist() for p in pg]
+        ps = list(net.parameters())
+        pg = torch.autograd.grad(L, ps, allow_unused=True)
+        return u.tolist(), g.tolist(), h.tolist(), [(torch.zeros_like(p) if t is None else t).tolist() for p, t in zip(ps, pg)]
 
     try:
         da, db = derivs(fast), derivs(plain)
@@ -594,8 +652,8 @@ def run_uniq(case):
     if shape_of(out) != [B, N, d]:
         res["problems"].append(f"output shape {shape_of(out)} for {B} functions with {N} locations each, {d} components")
         return res
-    bref = ref_mlp(np, case["branch"], [sum(r, []) for r in fn_values(case)]).reshape(B, d, K)
-    want = np.stack([np.einsum("ck,jck->jc", bref[i], ref_mlp(np, case["trunk"], case["xu"][i]).reshape(N, d, K)) for i in range(B)])
+    bref = ref_mlp(np, case["branch"], [sum(r, []) for r in fn_values(case)], case["bacts"]).reshape(B, d, K)
+    want = np.stack([np.einsum("ck,jck->jc", bref[i], ref_mlp(np, case["trunk"], case["xu"][i], case["tacts"]).reshape(N, d, K)) for i in range(B)])
     dd = maxdiff(out, want.tolist())
     if dd > TOL:
         o = np.array(out)
@@ -613,7 +671,7 @@ def run_uniq(case):
 
 
 def uniq_lines(case):
-    head = f"{case['d']} {case['neurons']} {len(case['pts']) * case['fdim']} " \
+    head = f"{case['d']} {case['neurons']} {len(case['pts']) * case['fdim']} {enc(case['tacts'], str)} {enc(case['bacts'], str)} " \
            f"{enc([enc_layer(L, fbits) for L in case['trunk']], str)} {enc([enc_layer(L, fbits) for L in case['branch']], str)} " \
            f"{enc_t23(case['xu'], fbits)} {enc(fn_values(case), fbits)}"
     return ["fwd 0 " + head]
@@ -644,9 +702,14 @@ def run_conv(case):
     torch.manual_seed(case["torch_seed"])
     B, N, d, K = case["B"], case["N"], case["d"], case["neurons"] // case["d"]
     try:
-        trunk = tp.models.FCTrunkNet(T, hidden=tuple(case["trunk_hidden"]))
-        conv = torch.nn.Conv1d(case["fdim"], case["fdim"], kernel_size=1)
-        branch = tp.models.ConvBranchNet1D(fs, disc, conv, hidden=tuple(case["branch_hidden"]))
+        trunk = tp.models.FCTrunkNet(T, hidden=tuple(case["trunk_hidden"]), activations=act_modules(case["tacts"], case["tform"]),
+                                     xavier_gains=case["tgains"])
+        ks = case.get("conv_kernel", 1)
+        conv = torch.nn.Conv1d(case["fdim"], case["fdim"], kernel_size=ks, padding=ks // 2)
+        if case.get("conv_deep"):
+            conv = torch.nn.Sequential(conv, torch.nn.Tanh(), torch.nn.Conv1d(case["fdim"], case["fdim"], kernel_size=1))
+        branch = tp.models.ConvBranchNet1D(fs, disc, conv, hidden=tuple(case["branch_hidden"]),
+                                           activations=act_modules(case["bacts"], case["bform"]), xavier_gains=case["bgains"])
         net = tp.models.DeepONet(trunk, branch, U, case["neurons"]).double()
         x = trunk_tensor(case)
         out = net(tp.spaces.Points(x, T), supply(case, case["primary"], fs)).as_tensor.detach()
@@ -687,7 +750,7 @@ def net_lines(case, res):
         fb = supply(case, prim, None).tolist()
     else:
         fb = fn_values(case)
-    head = f"{case['d']} {case['neurons']} {len(case['pts']) * case['fdim']} " \
+    head = f"{case['d']} {case['neurons']} {len(case['pts']) * case['fdim']} {enc(case['tacts'], str)} {enc(case['bacts'], str)} " \
            f"{enc([enc_layer(L, fbits) for L in case['trunk']], str)} {enc([enc_layer(L, fbits) for L in case['branch']], str)} " \
            f"{enc_t23(x, fbits)} {enc(fb, fbits)}"
     lines = ["fwd 1 " + head, "fwd 0 " + head]
@@ -697,7 +760,7 @@ def net_lines(case, res):
     else:
         lines.append("skip")
     if "vjp" in res:
-        lines.append(f"vjp {enc([enc_layer(L, fbits) for L in case['trunk']], str)} {enc_t23(x, fbits)} {enc(res['vjp_G'], fbits)}")
+        lines.append(f"vjp {enc(case['tacts'], str)} {enc([enc_layer(L, fbits) for L in case['trunk']], str)} {enc_t23(x, fbits)} {enc(res['vjp_G'], fbits)}")
     else:
         lines.append("skip")
     return lines
@@ -709,6 +772,11 @@ def judge_net(rep, case, res, replies):
         rep.count("net:sequential-trunk")
     rep.count("net:primary=" + case["primary"])
     rep.count(f"net:d={case['d']}")
+    rep.count(f"net:trunk-hidden-layers={len(case['trunk_hidden'])}")
+    rep.count("net:trunk-activations=" + ("one object" if case["tform"] == "single" else
+                                          f"{case['tform']}, {len(set(case['tacts']))} distinct"))
+    for c in set(case["tacts"]) | set(case["bacts"]):
+        rep.count("net:activation=" + ACT_NAMES[c])
     rep.count(f"net:B={case['B']}")
     for p in res["problems"]:
         rep.fail(p, case)
@@ -1016,7 +1084,8 @@ def judge(rep, case, res, replies):
 def key_of(case):
     k = case["kind"]
     if k in ("net", "uniq", "conv"):
-        return [k, case["din"], case["d"], case["neurons"], case["trunk_hidden"], case["branch_hidden"], case["fdim"],
+        return [k, case["din"], case["d"], case["neurons"], case["trunk_hidden"], case["branch_hidden"], case["tacts"], case["tform"],
+                case["bacts"], case["bform"], case["fdim"],
                 case["B"], case["N"], case["rank"], case["primary"], len(case["pts"])]
     if k == "lin":
         return ["lin", shape_of(case["x"]), shape_of(case["W"]), case["b"] is not None, case["shared"]]
@@ -1054,7 +1123,7 @@ def sample_of(case, res, replies):
 
 
 def run(ctx, rep, cases=None):
-    rep.rule = ("net: random FC trunk/branch architectures (float64, tanh), rank-2/rank-3 trunk inputs, all branch-input variants; "
+    rep.rule = ("net: random FC trunk/branch architectures (float64, 1-4 hidden layers, per-layer activation lists from tanh/sigmoid/softplus/sin/ReLU/identity or one activation object), rank-2/rank-3 trunk inputs, all branch-input variants; "
                 "non-trivial = at least 2 (function, location) pairs and a well-formed input; lin: one TrunkLinear layer, exact, "
                 "non-trivial = weight with >= 2 entries; mesh: >= 2 functions and >= 2 points; distinct = distinct shape/architecture keys")
     cases = cases if cases is not None else gen_cases(ctx)
